@@ -1,57 +1,37 @@
-(* Defrag.collect_moves_f's theorems (DefragGranProofs.v, any granularity, any commit oracle) at granularity 1, restated over
-   the definitions of DefragProofs.v that the allocator bridge (VamDefragPass.v) is written against. *)
+(* Defrag.collect_moves_f's theorems (DefragGranProofs.v: any commit oracle, any granularity) instantiated for vam's block lists:
+   handler HVam, per-block invariant GranTlsf.GInv gg (the page table of the granularity bookkeeping is sound), suballocation
+   types 1..5.  WFp gg is the planner's precondition on the projection of a block list of granularity gg. *)
 From Coq Require Import ZArith List Bool Lia.
-From Arsenal Require Import Util Gran Tlsf Pass PassProofs Defrag.
-From Arsenal Require DefragProofs DefragGranProofs.
+From Arsenal Require Import Util Gran GranInv GranTlsf Tlsf Pass PassProofs Defrag.
+From Arsenal Require DefragGranProofs.
 Import ListNotations.
 Open Scope Z_scope.
 
 Module G := DefragGranProofs.
-Module P := DefragProofs.
 
-Lemma move_ok_g1 st0 st ix m : G.move_ok st0 st ix m -> P.move_ok st0 st ix m.
-Proof. intros [A B C D E F]. constructor; assumption. Qed.
+Notation WFp := G.WFp.
+Definition CInvp (gg : Z) := G.CInv HVam gg (GInv gg) kind_ok.
 
-Lemma creg_g1 st0 st new : G.CReg st0 st new -> P.CReg st0 st new.
-Proof. intros [A B C]. constructor; [exact A|exact B|exact C]. Qed.
+Section P.
+Variable gg : Z.
+Variable E : Type.
+Variable att : E -> nat -> Z -> E * bool.
 
-Lemma cinv_g1 gh st0 ms0 p0 ix cs new :
-  G.CInv gh 1 G.QT G.KT st0 ms0 p0 ix cs new -> P.CInv st0 ms0 p0 ix cs new.
-Proof.
-  intros [A B C D E F H I J K L]. constructor.
-  - apply (G.wf_gran1_iff gh). exact A.
-  - exact B.
-  - exact C.
-  - eapply Forall_impl; [|exact D]. intros m. apply move_ok_g1.
-  - exact E.
-  - exact F.
-  - exact H.
-  - exact I.
-  - exact J.
-  - exact K.
-  - apply creg_g1. exact L.
-Qed.
-
-(* the planner with any commit oracle, on a block list of granularity 1 *)
-Theorem collect_moves_f_inv_g1 E att st c p (env : E) :
-  P.WF st -> pass_running p ->
-  exists new, P.CInv st (c_moves c) p (indexed st) (fst (res_f (collect_moves_f E att st c p env))) new /\
+Theorem collect_moves_f_inv_p st c p (env : E) :
+  WFp gg st -> pass_running p ->
+  exists new, CInvp gg st (c_moves c) p (indexed st) (fst (res_f (collect_moves_f E att st c p env))) new /\
               snd (res_f (collect_moves_f E att st c p env)) <> WPanic PCounters.
-Proof.
-  intros HW Hrun. apply (G.wf_gran1_iff HFake) in HW.
-  destruct (G.collect_moves_f_inv HFake 1 G.QT G.KT G.QT_step E att st c p env HW Hrun) as (new & HC & Hnp).
-  exists new. split; [eapply cinv_g1; exact HC|exact Hnp].
-Qed.
+Proof. intros HW Hrun. exact (G.collect_moves_f_inv HVam gg (GInv gg) kind_ok (G.GQ_step gg) E att st c p env HW Hrun). Qed.
 
 (* the immovable-block count is only used through Z.to_nat *)
-Lemma collect_moves_f_imm E att st c p (env : E) :
+Lemma collect_moves_f_imm st c p (env : E) :
   collect_moves_f E att st c p env = collect_moves_f E att st (mkC (c_algo c) (c_moves c) (Z.max 0 (c_immovable c))) p env.
 Proof.
   unfold collect_moves_f. cbn [c_algo c_moves c_immovable].
   replace (Z.to_nat (Z.max 0 (c_immovable c))) with (Z.to_nat (c_immovable c)) by lia. reflexivity.
 Qed.
 
-Theorem collect_moves_f_log_g1 E att st c p (env : E) :
+Theorem collect_moves_f_log_p st c p (env : E) :
   let X := collect_moves_f E att st c p env in
   cs_moves (fst (res_f X)) = c_moves c ++ log_moves (log_f X) /\
   Forall (fun a => In (at_dst a) (map fst (d_blocks st))) (log_f X).
@@ -63,23 +43,16 @@ Qed.
 
 (* the attempt log is the trace of the oracle: consulted once per logged attempt, in order; AtOk iff it answered true; the
    source slot of every attempt is a non-temporary entry of the original table *)
-Definition at_slot := G.at_slot.
-Definition strace := G.strace.
-
-Theorem collect_moves_f_strace_g1 E att st c p (env : E) :
-  P.WF st -> pass_running p ->
+Theorem collect_moves_f_strace_p st c p (env : E) :
+  WFp gg st -> pass_running p ->
   let X := collect_moves_f E att st c p env in
   G.strace E att env (log_f X) (env_f X) /\
   Forall (fun a => exists e, entry st (G.at_slot a) = Some e /\ u_temp e = false) (log_f X).
-Proof.
-  intros HW Hrun. apply (G.wf_gran1_iff HFake) in HW.
-  exact (G.collect_moves_f_strace HFake 1 G.QT G.KT G.QT_step E att st c p env HW Hrun).
-Qed.
+Proof. intros HW Hrun. exact (G.collect_moves_f_strace HVam gg (GInv gg) kind_ok (G.GQ_step gg) E att st c p env HW Hrun). Qed.
 
-Theorem collect_f_never_panics_g1 E att st c p (env : E) :
-  P.WF st -> pass_running p -> (c_algo c = 1 \/ c_algo c = 2) ->
+Theorem collect_f_never_panics_p st c p (env : E) :
+  WFp gg st -> pass_running p -> (c_algo c = 1 \/ c_algo c = 2) ->
   forall w, snd (collect_moves_f E att st c p env) <> WPanic w.
-Proof.
-  intros HW Hrun Halgo w. apply (G.wf_gran1_iff HFake) in HW.
-  exact (G.collect_f_never_panics HFake 1 G.QT G.KT G.QT_step E att st c p env HW Hrun Halgo w).
-Qed.
+Proof. intros HW Hrun Halgo w. exact (G.collect_f_never_panics HVam gg (GInv gg) kind_ok (G.GQ_step gg) E att st c p env HW Hrun Halgo w). Qed.
+
+End P.
